@@ -20,9 +20,12 @@ import (
 	"errors"
 	"fmt"
 	"io"
+	golog "log"
 	"net"
 	"net/http"
 	"net/http/httptest"
+	"os"
+	"path/filepath"
 	"runtime"
 	"strconv"
 	"sync"
@@ -32,8 +35,12 @@ import (
 	"github.com/refraction-networking/conjure/pkg/core"
 	"github.com/refraction-networking/conjure/pkg/phantoms"
 	"github.com/refraction-networking/conjure/pkg/station/liveness"
+	"github.com/refraction-networking/conjure/pkg/station/log"
 	"github.com/refraction-networking/conjure/pkg/transports"
 	"github.com/refraction-networking/conjure/pkg/transports/connecting/dtls"
+	"github.com/refraction-networking/conjure/pkg/transports/wrapping/min"
+	"github.com/refraction-networking/conjure/pkg/transports/wrapping/obfs4"
+	"github.com/refraction-networking/conjure/pkg/transports/wrapping/prefix"
 	pb "github.com/refraction-networking/conjure/proto"
 	"google.golang.org/protobuf/proto"
 	"google.golang.org/protobuf/types/known/anypb"
@@ -618,6 +625,8 @@ type c07Env struct {
 	// that the expected phantom does not depend on what the station made of a reload
 	known         map[int64]bool
 	modelSelector *phantoms.PhantomIPSelector
+	// prodRegistry is the registry NewRegistrationManager built (c07NewEnvProd)
+	prodRegistry *RegisteredDecoys
 }
 
 func c07NewEnv(tb testing.TB, realDetector bool) *c07Env {
@@ -629,6 +638,58 @@ func c07NewEnv(tb testing.TB, realDetector bool) *c07Env {
 	}
 	e.all[pb.TransportType_DTLS] = c07UDP{}
 	e.rm.connectingStats = c07NopStats{}
+	e.srv = httptest.NewServer(http.HandlerFunc(func(w http.ResponseWriter, r *http.Request) {
+		b, _ := io.ReadAll(r.Body)
+		e.shMu.Lock()
+		e.shares = append(e.shares, b)
+		e.shMu.Unlock()
+		w.WriteHeader(http.StatusOK)
+	}))
+	tb.Cleanup(e.srv.Close)
+	return e
+}
+
+// c07NewEnvProd builds the manager the way the station binary does: the station configuration is
+// written as TOML (it may carry keys the tree under test does not know), parsed with ParseConfig and
+// handed to NewRegistrationManager. The registry that NewRegistrationManager built is kept aside:
+// apply() takes the lifetimes the sweeper uses and (for realDetector) the announcement closures
+// from it, so whatever the production path configured stays in force for every case.
+func c07NewEnvProd(tb testing.TB, stationToml string, realDetector bool) *c07Env {
+	tb.Helper()
+	dir := tb.TempDir()
+	cfgPath := filepath.Join(dir, "station_config.toml")
+	if err := os.WriteFile(cfgPath, []byte(stationToml), 0o644); err != nil {
+		tb.Fatalf("harness problem: %v", err)
+	}
+	vSubnetMu.Lock()
+	vWriteSubnets(dir, c07Subnets)
+	os.Setenv("CJ_STATION_CONFIG", cfgPath)
+	conf, err := ParseConfig()
+	var rm *RegistrationManager
+	if err == nil {
+		rm = NewRegistrationManager(conf.RegConfig)
+	}
+	vSubnetMu.Unlock()
+	if err != nil || rm == nil {
+		tb.Fatalf("harness problem: production path did not yield a manager (ParseConfig: %v) for configuration:\n%s", err, stationToml)
+	}
+	ve := &vEnv{rm: rm, live: &vTester{}, logs: &vSyncBuf{}}
+	rm.LivenessTester = ve.live
+	rm.Logger = log.New(ve.logs, "[REG] ", golog.Ldate|golog.Lmicroseconds)
+	for i := range ve.priv {
+		ve.priv[i] = byte(i*7 + 1)
+	}
+	ve.priv[0] &= 248
+	ve.priv[31] &= 127
+	ve.priv[31] |= 64
+	ve.pub = vCurvePub(ve.priv)
+	pt, err := prefix.Default([][32]byte{ve.priv})
+	if err != nil {
+		tb.Fatalf("harness problem: prefix.Default: %v", err)
+	}
+	e := &c07Env{vEnv: ve, realDetector: realDetector, prodRegistry: rm.registeredDecoys}
+	e.all = map[pb.TransportType]Transport{pb.TransportType_Min: min.Transport{}, pb.TransportType_Obfs4: obfs4.Transport{}, pb.TransportType_Prefix: pt, pb.TransportType_DTLS: c07UDP{}}
+	rm.connectingStats = c07NopStats{}
 	e.srv = httptest.NewServer(http.HandlerFunc(func(w http.ResponseWriter, r *http.Request) {
 		b, _ := io.ReadAll(r.Body)
 		e.shMu.Lock()
@@ -674,6 +735,11 @@ func (e *c07Env) apply(cf c07Conf, live string) {
 		if tr, ok := e.all[pb.TransportType(t)]; ok {
 			nr.transports[pb.TransportType(t)] = tr
 		}
+	}
+	if p := e.prodRegistry; p != nil {
+		// what the production path put into the registry it built stays in force
+		nr.timeoutActive, nr.timeoutUnused = p.timeoutActive, p.timeoutUnused
+		nr.registerForDetector, nr.updateInDetector = p.registerForDetector, p.updateInDetector
 	}
 	if !e.realDetector {
 		nr.registerForDetector = func(d *DecoyRegistration) { e.announce("New", d) }
